@@ -67,6 +67,14 @@ func (t *Teamserver) LinkAdd(ParentAgent *agent.Agent, LinkAgent *agent.Agent) e
 	var ParentAgentID, _ = strconv.ParseInt(ParentAgent.NameID, 16, 64)
 	var LinkAgentID,   _ = strconv.ParseInt(LinkAgent.NameID, 16, 64)
 
+	// an agent has one parent: a row that still ties it to a previous parent goes
+	// (only the row - the agent itself stays active, it has just reconnected)
+	if OldParentID, err := t.DB.ParentOf(int(LinkAgentID)); err == nil && OldParentID != int(ParentAgentID) {
+		if err = t.DB.LinkRemove(OldParentID, int(LinkAgentID)); err != nil {
+			logger.Error("Could not remove link to database: " + err.Error())
+		}
+	}
+
 	err := t.DB.LinkAdd(int(ParentAgentID), int(LinkAgentID))
 	if err != nil {
 		logger.Error("Could not add link to database: " + err.Error())
